@@ -4,6 +4,8 @@ One request per input line: `<op> <int> <int> ...`; one reply line per request.
 -/
 import M17.Model.Golay
 import M17.Spec.Golay
+import M17.Model.Crc
+import M17.Spec.Crc
 
 open M17
 
@@ -38,6 +40,9 @@ def handle (st : DrvState) (op : String) (a : List Int) : DrvState × String :=
         | none => go (w+1) n ((h * 1000003) % 1000000007) nok
     let (h, nok) := go lo.toNat (hi.toNat - lo.toNat) 7 0
     (st, s!"{h} {nok}")
+  | "crc", bs => (st, toString (Crc.crc (bs.map Int.toNat)))
+  | "spec_crc", bs => (st, toString (Spec.crc16 (bs.map Int.toNat)))
+  | "crc_bytes", bs => (st, joinNats (Crc.getBytes ((bs.map Int.toNat).foldl Crc.update Crc.reset)))
   | _, _ => (st, "bad-op")
 
 partial def loop (h : IO.FS.Stream) (out : IO.FS.Stream) (st : DrvState) : IO Unit := do
